@@ -57,6 +57,27 @@ def generate_cases(P, ctx):
     return cases
 
 
+def _canary_prefix_confirms(ctx, cases, cid):
+    """Re-execute the cases up to and including cid in their original order in a new harness process; confirmed iff
+    the process-wide canary changes after case cid again."""
+    idx = [k for k, c in enumerate(cases) if c["case"] == cid]
+    if not idx:
+        return False
+    cpath = os.path.join(ctx["work"], "cases-prefix.ndjson")
+    tpath = os.path.join(ctx["work"], "trace-prefix.ndjson")
+    core.write_ndjson(cpath, cases[:idx[0] + 1])
+    p = core.sh([ctx["harness"], "exec", cpath, tpath], timeout=ctx["timeout"], env=ctx.get("harness_env"), check=False)
+    if p.returncode != 0 or "EXECUTED" not in p.stdout:
+        return False
+    with open(tpath) as f:
+        for line in f:
+            if '"ev":"crash"' in line and '"canary:' in line.replace('": "', '":"'):
+                ev = json.loads(line)
+                if ev["case"] == cid:
+                    return True
+    return False
+
+
 def exec_and_judge(P, ctx, cases, tag):
     """Steps 4-5 on a list of cases; returns rejects [(case id, i, reason)], judge stats."""
     cpath = os.path.join(ctx["work"], "cases-%s.ndjson" % tag)
@@ -102,7 +123,7 @@ def exec_and_judge(P, ctx, cases, tag):
             for line in f:
                 if '"ev":"crash"' in line:
                     ev = json.loads(line)
-                    crashes.append((ev["case"], ev.get("i", 0), "result_crashes_consumer"))
+                    crashes.append((ev["case"], ev.get("i", 0), "shared_state_changed_by_earlier_use" if str(ev.get("msg", "")).startswith("canary:") else "result_crashes_consumer"))
                 else:
                     out.write(line)
         os.replace(kept, tpath)
@@ -216,6 +237,10 @@ def run_property(P, tier, seed, replay=None):
                         or reason == "concurrent_instances_interfere":
                     # (an interference between goroutines was observed on the real code; a race need not show again)
                     # (for a schedule-dependent family the recorded crash / hang IS the observation: it is not in the judge's output)
+                    confirmed.append((cid, i, reason))
+                elif reason == "shared_state_changed_by_earlier_use" and _canary_prefix_confirms(ctx, cases, cid):
+                    # package-level state builds up over a history of calls: the case alone need not show it, the same cases
+                    # in the same order in a new process must
                     confirmed.append((cid, i, reason))
                 elif reason == "call_did_not_return":
                     # the call exceeded the time budget once and returned in time when the case was run alone:
